@@ -112,6 +112,46 @@ def compare(chk: Check, case, where: str):
         chk.nontriv(json.dumps([case["A"], case["y"]]))
 
 
+def fit_paths(chk: Check, cases, rng, nsample):
+    """The same exact instances through every path a fit takes to the linear solve: per-index estimation of an unlinked dataset, the stacked
+    solve of a linked group, and the full-model solve (matrix kron(G, A) with G the 2x2 identity, data columns y and 2y), each with both residual
+    functions.  The residual reported for the dataset must be the exact residual of the SELECTED minimiser."""
+    import warnings
+    import numpy as np
+    from glotaran.optimization.optimize import optimize
+    from . import lattice
+    pick = [c for c in cases if any(v < 0 for v in c["vp"]["num"])]         # the two minimisers differ
+    rest = [c for c in cases if c not in pick]
+    sel = rng.sample(pick, min(nsample, len(pick))) + rng.sample(rest, min(max(2, nsample // 4), len(rest)))
+    for c in sel:
+        n = len(c["A"][0])
+        labels = [f"c{j}" for j in range(n)]
+        cols = [[row[j] for row in c["A"]] for j in range(n)]
+        y = c["y"]
+        for rf, sol, res in (("variable_projection", c["vp"], c["vpres"]), ("non_negative_least_squares", c["nnls"], c["nnlsres"])):
+            want = np.array([float(Fraction(v, sol["den"])) for v in res])
+            for path in ("unlinked", "linked", "full"):
+                d = {"label": "d0", "group": "g", "axis": [0, 1], "data": [[v, 2 * v] for v in y], "mcs": [{"labels": labels, "cols": cols}]}
+                if path == "full":
+                    d["gmcs"] = [{"labels": ["ga", "gb"], "cols": [[1, 0], [0, 1]]}]
+                case = {"groups": [{"label": "g", "link": path == "linked", "residual_function": rf, "datasets": ["d0"]}], "datasets": [d]}
+                rep = {"engine": "c01-fit", "case": c, "path": path, "rf": rf}
+                chk.evaluations += 1
+                try:
+                    with warnings.catch_warnings():
+                        warnings.simplefilter("ignore")
+                        result = optimize(lattice.build(case, max_nfev=1), verbose=False, raise_exception=True)
+                    r = result.data["d0"].residual.transpose(lattice.MODEL_DIM, lattice.GLOBAL_DIM).values
+                except Exception as ex:  # noqa: BLE001
+                    chk.violation(f"LeastSquares[fit path {path}, {rf}] raises", f"{type(ex).__name__}: {str(ex)[:200]}; A={c['A']} y={y}", rep)
+                    continue
+                scale = max(1.0, max(abs(v) for v in y))
+                if r.shape != (len(y), 2) or not (np.max(np.abs(r[:, 0] - want)) <= TOL * scale) or not (np.max(np.abs(r[:, 1] - 2 * want)) <= 2 * TOL * scale):
+                    chk.violation(f"LeastSquares[fit path {path}, {rf}]: residual of the selected minimiser",
+                                  f"{path} dataset, residual_function={rf}: reported residual {r.T.tolist()} is not data - matrix*clp of the selected minimiser "
+                                  f"({want.tolist()} and twice that); A={c['A']} y={y}", rep)
+
+
 def dispatch_checks(chk: Check):
     """EstimationProvider.calculate_residual dispatches on residual_function; unknown names are rejected."""
     import numpy as np
@@ -157,7 +197,10 @@ def run(tier: str, replay=None) -> int:
         "trusted: TLC, fractions.Fraction for the final division num/den",
     ]
     if replay:
-        compare(chk, replay["replay"]["case"], "replay")
+        if replay["replay"].get("engine") == "c01-fit":
+            fit_paths(chk, [replay["replay"]["case"]], rng, 1)
+        else:
+            compare(chk, replay["replay"]["case"], "replay")
         return chk.finish()
     inv_small = ["Orthogonal", "NNLSCertificate", "NNLSMinimal", "VPMinimal", "ResidualIdentity"]
     inv_big = ["Orthogonal", "NNLSCertificate", "ResidualIdentity"]
@@ -224,5 +267,6 @@ def run(tier: str, replay=None) -> int:
         c2 = dict(c)
         c2["colscale"] = [v + off for v in e]
         compare(chk, c2, "column-scaled")
+    fit_paths(chk, allcases, rng, 12 if tier == "quick" else 150)
     dispatch_checks(chk)
     return chk.finish()
